@@ -145,6 +145,21 @@ def is_sorted(model):
     return True
 
 
+def undefined_values(model):
+    """names of values that are used (by a node or as a graph output) without being defined anywhere in their scope chain"""
+    st = state_of(model)
+    out = set()
+    for g in st.graphs:
+        for v in g.outputs:
+            if v.producer() is None and not v.is_graph_input() and not v.is_initializer():
+                out.add(f"output {v.name!r} of graph {g.name!r}")
+        for n in g:
+            for v in n.inputs:
+                if v is not None and v.producer() is None and not v.is_graph_input() and not v.is_initializer():
+                    out.add(f"input {v.name!r} of node {n.name!r}")
+    return out
+
+
 def exact_snapshot(model):
     """what 'exactly unchanged' means for analysis-only passes (no serialization involved: it may be failing)"""
     st = state_of(model)
@@ -194,6 +209,7 @@ def run_contract(mname, P):
     problems = []
     bound = size_bound(m)
     sorted_before = is_sorted(m)
+    undefined_before = undefined_values(m)
     try:
         b0 = proto_bytes(m)
     except Exception as e:  # noqa: BLE001
@@ -273,6 +289,9 @@ def run_contract(mname, P):
     # Node(outputs=) on inputs is a known C01 finding; passes must not create NEW inconsistencies
     if inv:
         problems.append("links: " + "; ".join(inv[:2]))
+    new_undefined = undefined_values(final) - undefined_before
+    if new_undefined:
+        problems.append(f"links: the pass left values that are used but defined nowhere: {sorted(new_undefined)[:3]}")
     if sorted_before and not is_sorted(final):
         problems.append("order: a topologically ordered model is no longer ordered")
     try:
